@@ -2,8 +2,10 @@ package worlds
 
 import (
 	"bytes"
+	"crypto/sha1"
 	"encoding/hex"
 	"fmt"
+	"net/url"
 	"sort"
 	"strings"
 	"sync"
@@ -34,6 +36,10 @@ type TransferPlan struct {
 	Webseeds []WebseedSpec `json:"webseeds,omitempty"`
 	Steps    []Step        `json:"steps,omitempty"`
 	Magnet   bool          `json:"magnet,omitempty"`
+	// Magnet link details (C13 round trip): display name, base32 info-hash form, tracker tiers.
+	MagnetDN     string     `json:"magnet_dn,omitempty"`
+	MagnetBase32 bool       `json:"magnet_base32,omitempty"`
+	MagnetTiers  [][]string `json:"magnet_tiers,omitempty"`
 	// DiskWriteLatMax stretches the window in which a piece write is in flight.
 	DiskWriteLatMax time.Duration `json:"disk_write_lat_max,omitempty"`
 	// FaultsStop: after this instant no new faults are injected and byzantine peers are shut
@@ -202,11 +208,33 @@ func RunTransfer(env *Env, plan *TransferPlan) {
 	}
 	w.sut = sut
 
+	// scripted peers that listen are created first: a magnet link may name them (x.pe)
+	var magnetPeers []string
+	type pre struct {
+		host *simrt.Host
+		a    *PeerActor
+	}
+	prePeers := map[string]*PeerActor{}
+	for _, ps := range plan.Peers {
+		if ps.Mode == "listen" {
+			a := &PeerActor{Spec: ps, Host: env.NewHost(ps.Name, "peer"), T: T, Seed: env.R.Uint64()}
+			a.Listen()
+			prePeers[ps.Name] = a
+			if plan.Magnet && ps.Via == "magnet" {
+				magnetPeers = append(magnetPeers, a.Addr)
+			}
+		}
+	}
 	// add the torrent (stopped), then wire oracles, then start
 	opt := &torrent.AddTorrentOptions{ID: "tt", Stopped: true, Sequential: plan.K.Sequential}
+	var link string
+	if plan.Magnet {
+		link = buildMagnet(T.InfoHash, plan.MagnetBase32, plan.MagnetDN, plan.MagnetTiers, magnetPeers)
+		simrt.Logf("magnet link %s", link)
+	}
 	sut.In(func() {
 		if plan.Magnet {
-			w.tor, err = sut.Sess.AddURI("magnet:?xt=urn:btih:"+hashHex(T.InfoHash)+"&dn="+T.Name, opt)
+			w.tor, err = sut.Sess.AddURI(link, opt)
 		} else {
 			w.tor, err = sut.Sess.AddTorrent(bytes.NewReader(T.MetaBytes), opt)
 		}
@@ -254,15 +282,25 @@ func RunTransfer(env *Env, plan *TransferPlan) {
 		}
 		return ""
 	}
+	if plan.Magnet {
+		checkMagnetRoundTrip(w.tor, sut, T.InfoHash, plan.MagnetDN, plan.MagnetTiers, magnetPeers, "after add")
+		go func() {
+			<-w.tor.NotifyMetadata()
+			simrt.Logf("SUT reports metadata")
+			checkAdoptedMetadata(w.tor, sut, T.InfoHash)
+			checkMagnetRoundTrip(w.tor, sut, T.InfoHash, plan.MagnetDN, plan.MagnetTiers, magnetPeers, "after metadata")
+		}()
+	}
 	for _, ps := range plan.Peers {
-		a := &PeerActor{Spec: ps, Host: env.NewHost(ps.Name, "peer"), T: T, Lim: lim, Seed: env.R.Uint64(), SutAddr: sutAddr}
-		a.Hooks = hooks(a)
-		if ps.Mode == "listen" {
-			a.Listen()
+		a := prePeers[ps.Name]
+		if a == nil {
+			a = &PeerActor{Spec: ps, Host: env.NewHost(ps.Name, "peer"), T: T, Seed: env.R.Uint64()}
 		}
+		a.Lim, a.SutAddr = lim, sutAddr
+		a.Hooks = hooks(a)
 		a.Start()
 		w.peers = append(w.peers, a)
-		if ps.Mode == "listen" {
+		if ps.Mode == "listen" && ps.Via != "magnet" && ps.Via != "none" {
 			a := a
 			go func() {
 				if d := a.Spec.At - simrt.Now(); d > 0 {
@@ -571,4 +609,137 @@ func (w *transferWorld) checkComplete(where string) {
 			simrt.Violate("C01", "complete.extra_file", "%s: unexpected file %s in the torrent directory", where, p)
 		}
 	}
+}
+
+// ---- magnet helpers (own encoder/parser, independent of rain's magnet package) -------
+
+func base32Std(b []byte) string {
+	const alpha = "ABCDEFGHIJKLMNOPQRSTUVWXYZ234567"
+	var out []byte
+	var acc uint64
+	bits := 0
+	for _, c := range b {
+		acc = acc<<8 | uint64(c)
+		bits += 8
+		for bits >= 5 {
+			out = append(out, alpha[(acc>>(uint(bits)-5))&31])
+			bits -= 5
+		}
+	}
+	if bits > 0 {
+		out = append(out, alpha[(acc<<(5-uint(bits)))&31])
+	}
+	return string(out)
+}
+
+func buildMagnet(ih [20]byte, b32 bool, dn string, tiers [][]string, peers []string) string {
+	var sb strings.Builder
+	sb.WriteString("magnet:?xt=urn:btih:")
+	if b32 {
+		sb.WriteString(base32Std(ih[:]))
+	} else {
+		sb.WriteString(hashHex(ih))
+	}
+	if dn != "" {
+		sb.WriteString("&dn=" + url.QueryEscape(dn))
+	}
+	for i, t := range tiers {
+		if len(t) == 1 {
+			sb.WriteString("&tr=" + url.QueryEscape(t[0]))
+		} else {
+			for _, tr := range t {
+				sb.WriteString(fmt.Sprintf("&tr.%d=%s", i, url.QueryEscape(tr)))
+			}
+		}
+	}
+	for _, p := range peers {
+		sb.WriteString("&x.pe=" + p)
+	}
+	return sb.String()
+}
+
+func tierKey(t []string) string {
+	c := append([]string(nil), t...)
+	sort.Strings(c)
+	return strings.Join(c, "|")
+}
+
+// checkMagnetRoundTrip: the link the client exports parses back (with an independent
+// parser) to the same info-hash, name, tracker tiers (each tier as a set) and peers.
+func checkMagnetRoundTrip(tor *torrent.Torrent, sut *Node, ih [20]byte, dn string, tiers [][]string, peers []string, when string) {
+	var link string
+	var err error
+	sut.In(func() { link, err = tor.Magnet() })
+	if err != nil {
+		simrt.Violate("C13", "magnet.export_error", "%s: Magnet() failed for a public torrent: %v", when, err)
+		return
+	}
+	u, perr := url.Parse(link)
+	if perr != nil || u.Scheme != "magnet" {
+		simrt.Violate("C13", "magnet.roundtrip", "%s: exported link %q does not parse as a magnet URI: %v", when, link, perr)
+		return
+	}
+	q := u.Query()
+	xt := q.Get("xt")
+	if !strings.EqualFold(xt, "urn:btih:"+hashHex(ih)) && xt != "urn:btih:"+base32Std(ih[:]) {
+		simrt.Violate("C13", "magnet.roundtrip", "%s: exported link carries xt=%q, the torrent's info-hash is %s", when, xt, hashHex(ih))
+	}
+	wantName := dn
+	var name string
+	sut.In(func() { name = tor.Name() })
+	if wantName != "" && q.Get("dn") != name {
+		simrt.Violate("C13", "magnet.roundtrip", "%s: exported dn=%q, torrent name %q", when, q.Get("dn"), name)
+	}
+	// tiers as a multiset of sets (only trackers the client supports: http, https, udp)
+	want := map[string]int{}
+	for _, t := range tiers {
+		want[tierKey(t)]++
+	}
+	got := map[string]int{}
+	for _, tr := range q["tr"] {
+		got[tierKey([]string{tr})]++
+	}
+	for k, v := range q {
+		if strings.HasPrefix(k, "tr.") {
+			got[tierKey(v)]++
+		}
+	}
+	for k, n := range want {
+		if got[k] != n {
+			simrt.Violate("C13", "magnet.roundtrip", "%s: tracker tiers differ: link was built with %v, exported link has %v", when, want, got)
+			break
+		}
+	}
+	if len(got) != len(want) {
+		simrt.Violate("C13", "magnet.roundtrip", "%s: tracker tiers differ: link was built with %v, exported link has %v", when, want, got)
+	}
+	gp := append([]string(nil), q["x.pe"]...)
+	wp := append([]string(nil), peers...)
+	sort.Strings(gp)
+	sort.Strings(wp)
+	if strings.Join(gp, ",") != strings.Join(wp, ",") {
+		simrt.Violate("C13", "magnet.roundtrip", "%s: peers differ: link was built with %v, exported link has %v", when, wp, gp)
+	}
+	simrt.Count("probe.magnet.roundtrip_checked", 1)
+}
+
+// checkAdoptedMetadata: whatever the peers sent, the metadata the client adopted hashes to
+// the info-hash of the link.
+func checkAdoptedMetadata(tor *torrent.Torrent, sut *Node, ih [20]byte) {
+	var b []byte
+	var err error
+	sut.In(func() { b, err = tor.Torrent() })
+	if err != nil {
+		simrt.Violate("C13", "metadata.not_exportable", "NotifyMetadata fired but Torrent() fails: %v", err)
+		return
+	}
+	d, derr := gen.RawDict(b)
+	if derr != nil || d["info"] == nil {
+		simrt.Violate("C13", "metadata.not_exportable", "Torrent() returned bytes without an info dictionary: %v", derr)
+		return
+	}
+	if h := sha1.Sum(d["info"]); h != ih {
+		simrt.Violate("C13", "metadata.hash_mismatch", "adopted metadata hashes to %x, the magnet link says %x", h, ih)
+	}
+	simrt.Count("probe.magnet.metadata_adopted", 1)
 }
